@@ -51,7 +51,11 @@ func genCoverage(c *hmain.Ctx, r *hx.Rng, multiWhich int, add func(stream string
 		for k := r.Range(2, 5); k > 0; k-- {
 			first = append(first, b.line(s, 10+r.Intn(30), 0, 0))
 		}
-		lives := []hx.Sx{live(1, opTrunc(0, 0, b.line(s, 0, 0, 0))), live(r.Intn(2), opAppend(0, 0, b.line(s, 0, 0, 0), b.line(s, 3, 0, 0)))}
+		_ = r.Intn(2) // (keeps the random sequence of the older cases)
+		// the append WAITS until the line written by the truncation was delivered: a truncation followed at once by a
+		// regrowth beyond the old read offset cannot be told from an append by any offset-based reader (copytruncate race) -
+		// the property promises 'everything written after the truncation' only for a truncation the input had a chance to see
+		lives := []hx.Sx{live(1, opTrunc(0, 0, b.line(s, 0, 0, 0))), live(1, opAppend(0, 0, b.line(s, 0, 0, 0), b.line(s, 3, 0, 0)))}
 		if r.Bool() { // a second truncation of the same file, again below what was read
 			lives = append(lives, live(1, opTrunc(0, 0, b.line(s, 0, 0, 0))), live(1, opAppend(0, r.Range(0, 10), b.line(s, 0, 0, 0), b.line(s, 8, 0, 0))))
 		}
